@@ -32,8 +32,8 @@ CRATE = os.path.join(CACHE, "replay17-crate")
 TARGET = os.path.join(CACHE, "replay17-target")
 TEMPLATE = os.path.join(hostrun.VERIF, "replay", "template17")
 
-HARNESSES_Q = ["js_char_len1", "js_char_len2", "js_char_len3", "js_char_len4", "witness_js_reaches_assert"]
-HARNESSES_T = HARNESSES_Q + ["js_chars_1_1"]
+HARNESSES_1 = ["js_char_len1", "js_char_len2", "js_char_len3", "js_char_len4", "witness_js_reaches_assert"]
+HARNESSES_2 = ["js_chars_1_1", "js_chars_1_2", "js_chars_2_1", "js_chars_1_3", "js_chars_3_1", "js_chars_1_4", "js_chars_4_1"]
 
 
 def setup_crate(project_dir, body):
@@ -160,6 +160,18 @@ def read_expr(proj, h, ns, path, loc, hk):
 
 def native_part(tier, seed, limit):
     cases = [c for c in c11.cases_for(tier, seed) if c.expect == "ok"]
+    # strings aimed at the script context
+    from suites import S, V, SUB, Case, Project
+    hostile = ['"]}];alert(1);//', 'back\\"slash quote', "</SCRIPT >", "<![CDATA[ ]]>", "para\u2029sep line\u2028sep", "--> <!-- <script>", "\\u0041 \\n literal escapes",
+               "\u0000\u0001\u0008\u000b\u000c\u001f\u007f\u0080\u009f", "'+alert(1)+'", "`${alert(1)}`", "\\", "\"", "<", "&lt;/script&gt;", "\ud7ff\ue000\ufffd\U0010ffff"]
+    def tree(l):
+        d = {"h%d" % i: S(x + " " + l) for i, x in enumerate(hostile)}
+        d["iv"] = S(hostile[0], V("x"), hostile[1] + l)
+        d["grp"] = SUB({"a": S(hostile[2] + l), "b": S(hostile[4])})
+        return d
+    cases.insert(0, Case(Project("en", ["en", "fr", "de"], {l: tree(l) for l in ("en", "fr", "de")}), "c17_script/plain", roles={"*": "script_context_strings"}))
+    nsf = {ns: {l: {"k%d" % i: S(x + ns + l) for i, x in enumerate(hostile[:8])} for l in ("en", "fr")} for ns in ("zz", "aa")}
+    cases.insert(1, Case(Project("en", ["en", "fr"], nsf, namespaces=["zz", "aa"]), "c17_script/namespaces", roles={"*": "script_context_strings"}))
     # spread over the families
     fams = {}
     for c in cases:
@@ -167,7 +179,8 @@ def native_part(tier, seed, limit):
     order = []
     i = 0
     while len(order) < limit and any(fams.values()):
-        for f in sorted(fams):
+        prio = ["c17_script", "c11_unicode", "c11:c03_inherit", "c11:c01_namespaces", "c11:c01_subkeys", "c11:c01_interp", "c11:c06_args", "c11:c01_literals"]
+        for f in sorted(fams, key=lambda x: (prio.index(x) if x in prio else len(prio), x)):
             if fams[f]:
                 order.append(fams[f].pop((seed + i) % len(fams[f]) if fams[f] else 0))
                 if len(order) >= limit:
@@ -279,11 +292,12 @@ def run(tier, seed):
     prop = "C17"
     t0 = time.time()
     hostrun.build_host()
-    harnesses = HARNESSES_Q if tier == "quick" else HARNESSES_T
-    krun = kani_run.KaniRun("jsstr", harnesses, jobs=len(harnesses), timeout_s=1500 if tier == "quick" else 5400)
+    harnesses = list(HARNESSES_1) + list(HARNESSES_2)
+    # one character: the loop over value.chars() runs once (bound 2 = 1 + exit test); two characters: bound 3
+    krun = kani_run.KaniRun("jsstr", HARNESSES_1, jobs=len(HARNESSES_1), timeout_s=1500, unwindset={"write_js_string": 2})
     replay.lock()
     try:
-        stats, findings, inconclusive, tags = native_part(tier, seed, 5 if tier == "quick" else 24)
+        stats, findings, inconclusive, tags = native_part(tier, seed, 8 if tier == "quick" else 30)
     finally:
         replay.unlock()
     known = report.load_known()
@@ -305,11 +319,24 @@ def run(tier, seed):
             path = report.write_replay(prop, name, payload)
             print("VIOLATION property=%s replay=%s" % (prop, path))
             print("  %s case=%s %s" % (kind, payload["case"], json.dumps({k: v for k, v in payload.items() if k in ("error", "units", "unit", "first_difference_at", "embedded", "source")}, ensure_ascii=False)[:300]))
+    kw = dict(
+        functions=["leptos_i18n::fetch_translations::write_js_string::<Sink> (through verif_hooks::write_js_string), compiled by Kani from /repo; Sink is the harness' array writer (production instantiates it with String)"],
+        stubs=[], assumptions=["the decoder in the harness is the RFC 8259 string grammar (which ECMAScript string literals include), extended to reject a raw `<` and raw U+2028 / U+2029",
+                               "per-loop bound for the loop over value.chars() through --unwindset (characters + 1), all other loops unwind 8; unwinding assertions on"])
     rc_k, cov = kcheck.finish(
         prop, krun, ["witness_js_reaches_assert"],
-        bounds="strings of exactly one Unicode scalar value of 1, 2, 3, 4 UTF-8 bytes (all of them)%s; longer strings are outside the solver's claim (the loop body has no state besides the output buffer, but that argument is not checked mechanically)" % ("" if tier == "quick" else " and every pair of two ASCII characters"),
-        functions=["leptos_i18n::fetch_translations::push_js_string (through verif_hooks::push_js_string), compiled by Kani from /repo"],
-        stubs=[], assumptions=["the decoder in the harness is the RFC 8259 string grammar, which ECMAScript string literals include; String::with_capacity(24) so that the buffer never regrows"])
+        bounds="strings of exactly one Unicode scalar value of 1, 2, 3, 4 UTF-8 bytes (every scalar value)", **kw)
+    krun2 = kani_run.KaniRun("jsstr", HARNESSES_2, jobs=len(HARNESSES_2), timeout_s=2400 if tier == "quick" else 5400, unwindset={"write_js_string": 3})
+    rc_k2, cov2 = kcheck.finish(
+        prop, krun2, [],
+        bounds="strings of exactly two scalar values where at least one is ASCII (byte lengths 1+1, 1+2, 2+1, 1+3, 3+1, 1+4, 4+1: every such pair)", **kw)
+    cov["two_characters"] = cov2
+    cov["harnesses"] = dict(cov["harnesses"], **cov2["harnesses"])
+    cov["harnesses_successful"] += cov2["harnesses_successful"]
+    cov["solver_s"] = round(cov["solver_s"] + cov2["solver_s"], 1)
+    cov["violations"] = cov["violations"] + cov2["violations"]
+    cov["bounds"] = cov["bounds"] + "; " + cov2["bounds"] + "; longer strings are outside the solver's claim (the loop body keeps no state besides the sink, but that argument is not checked mechanically)"
+    rc_k = 1 if 1 in (rc_k, rc_k2) else max(rc_k, rc_k2)
     wall = time.time() - t0
     report.write_evidence(prop, tier, seed, "model_checking", {
         "evaluations": max(1, cov["harnesses_successful"]), "distinct_nontrivial": max(2, len(harnesses)),
